@@ -16,10 +16,11 @@
     eval.py      `eval_expression` (simpleeval)        -> `eval` on the fragment `Expr`
 
   Not modelled (the adapter rejects flows that use them): `branch`/`any` elements (`when`), `check`,
-  `stop`, labels/goto, absolute jumps other than those the subset never produces, generic event
-  elements, flow ids with parameters, priorities other than 1.0.  Context keys written by the
-  interpreter itself (`event`, `config`, `last_user_message`, `last_bot_message`) are left out:
-  expressions that mention them are rejected by the adapter.
+  raw `stop` elements, labels/goto, flow ids with parameters, match elements of type
+  `StartUtteranceBotAction`, intent parameters.  Objects in the context (`$event`, `$config`,
+  `$generation_options`) are modelled by their *flattened* attribute paths (variables with dotted names,
+  `Ctx.withEvent`); values are None/bool/int/str/list-of-str.  This is enough to execute every element of
+  the shipped `rails/llm/llm_flows.co` (see Generated/LlmFlowsV1.lean) and the self-check style rails.
 
   The flag `repaired : Bool` selects between the code as it is (`false`) and the code with the two
   proposed repairs (`true`, what the harness compares against outside the findings' regions):
@@ -40,6 +41,8 @@ namespace NemoVerif.V1Interp
 
 inductive V where
   | none | bool (b : Bool) | int (i : Int) | str (s : String)
+  /-- a list of strings (rail flow names: `$config.rails.input.flows`) -/
+  | strs (l : List String)
   deriving DecidableEq, Repr, Inhabited
 
 inductive BinOp where
@@ -48,6 +51,12 @@ inductive BinOp where
 
 inductive Expr where
   | lit (v : V) | var (n : String) | not (e : Expr) | bin (op : BinOp) (a b : Expr)
+  /-- `len(e)` -/
+  | len (e : Expr)
+  /-- `e[i]` -/
+  | index (e i : Expr)
+  /-- `e is None` (`neg = false`) / `e is not None` (`neg = true`) -/
+  | isNone (e : Expr) (neg : Bool)
   deriving DecidableEq, Repr, Inhabited
 
 abbrev Ctx := List (String × V)
@@ -60,7 +69,7 @@ def Ctx.set (σ : Ctx) (k : String) (v : V) : Ctx := (k, v) :: σ.filter (fun kv
 def Ctx.update (σ : Ctx) (d : Ctx) : Ctx := d.foldl (fun acc kv => Ctx.set acc kv.1 kv.2) σ
 
 def V.truthy : V → Bool
-  | .none => false | .bool b => b | .int i => i != 0 | .str s => s != ""
+  | .none => false | .bool b => b | .int i => i != 0 | .str s => s != "" | .strs l => !l.isEmpty
 
 def V.num? : V → Option Int
   | .bool b => some (if b then 1 else 0) | .int i => some i | _ => Option.none
@@ -69,6 +78,7 @@ def V.num? : V → Option Int
 def V.pyEq : V → V → Bool
   | .none, .none => true
   | .str a, .str b => a == b
+  | .strs a, .strs b => a == b
   | a, b => match a.num?, b.num? with
     | some x, some y => x == y
     | _, _ => false
@@ -105,6 +115,28 @@ def evalBin (op : BinOp) (a b : V) : Option V :=
   | .and => some (if a.truthy then b else a)   -- only used when both sides were evaluated
   | .or => some (if a.truthy then a else b)
 
+/-- Python indexing of a list / string with negative indices wrapping; `none` = IndexError / TypeError -/
+def pyGet (v : V) (i : V) : Option V :=
+  match i with
+  | .int k =>
+    match v with
+    | .strs l =>
+      let n : Int := l.length
+      let j := if k < 0 then k + n else k
+      if 0 ≤ j ∧ j < n then (l[j.toNat]?).map .str else Option.none
+    | .str s =>
+      let cs := s.toList
+      let n : Int := cs.length
+      let j := if k < 0 then k + n else k
+      if 0 ≤ j ∧ j < n then (cs[j.toNat]?).map fun c => .str (String.singleton c) else Option.none
+    | _ => Option.none
+  | _ => Option.none
+
+def pyLen : V → Option V
+  | .strs l => some (.int l.length)
+  | .str s => some (.int s.length)
+  | _ => Option.none
+
 /-- `eval_expression` on the fragment; `none` = the evaluation raised. `and`/`or` short-circuit. -/
 def eval (σ : Ctx) : Expr → Option V
   | .lit v => some v
@@ -119,6 +151,13 @@ def eval (σ : Ctx) : Expr → Option V
   | .bin op a b => match eval σ a, eval σ b with
     | some va, some vb => evalBin op va vb
     | _, _ => Option.none
+  | .len e => match eval σ e with
+    | some v => pyLen v
+    | Option.none => Option.none
+  | .index e i => match eval σ e, eval σ i with
+    | some v, some vi => pyGet v vi
+    | _, _ => Option.none
+  | .isNone e neg => (eval σ e).map fun v => .bool ((v == .none) != neg)
 
 /-! ## elements -/
 
@@ -135,6 +174,10 @@ inductive Elem where
   /-- `_next_on_continue` if the element carries one (default 1) -/
   | continueE (off : Option Int)
   | flow (name : String)
+  /-- `do $expr`: the subflow id is computed (`$input_flows[$i]`) -/
+  | flowE (e : Expr)
+  /-- a generic event element (`event UserMessage(text="...")`): type + the non-private keys -/
+  | event (ty : String) (props : List (String × V))
   deriving DecidableEq, Repr, Inhabited
 
 def WILDCARD : String := "..."
@@ -199,19 +242,41 @@ inductive Event where
   | startAction
   | hidePrevTurn
   /-- any other event type (`UtteranceUserActionFinished`, `UserMessage`, `StartUtteranceBotAction`, `Listen`, …) -/
-  | other (ty : String)
+  | other (ty : String) (props : List (String × V) := [])
   deriving Repr, Inhabited, DecidableEq
 
 def isMatch : Elem → Event → Bool
   | .userIntent n, .userIntent i => n == WILDCARD || n == i
   | .runAction name value _ _, .botIntent i => name == "utter" && (value == some WILDCARD || value == some i)
   | .runAction name _ _ _, .actionFinished an ok => ok && name == an
+  -- generic branch (also covers UtteranceUserActionFinished elements, whose only key is final_transcript)
+  | .event ty props, .other ety eprops =>
+    ty == ety && props.all fun kv => kv.2 == .str WILDCARD || ((eprops.lookup kv.1).getD .none).pyEq kv.2
   | _, _ => false
 
-/-- `event["type"] in flow_config.trigger_event_types` for the default list. -/
-def Event.triggers : Event → Bool
+/-- `event["type"] in flow_config.trigger_event_types`: the default list plus the flow's extra types
+    (`_load_flow_config` adds the type of every event the flow creates with `create event`). -/
+def Event.triggers (extra : List String) : Event → Bool
   | .userIntent _ | .botIntent _ | .actionFinished _ _ => true
+  | .other ty _ => extra.contains ty
   | _ => false
+
+/-- the keys of `context["event"]` visible to expressions, flattened as `event.<key>` -/
+def Event.props : Event → List (String × V)
+  | .userIntent i => [("event.type", .str "UserIntent"), ("event.intent", .str i)]
+  | .botIntent i => [("event.type", .str "BotIntent"), ("event.intent", .str i)]
+  | .actionFinished n ok => [("event.type", .str "InternalSystemActionFinished"), ("event.action_name", .str n),
+      ("event.status", .str (if ok then "success" else "failed"))]
+  | .other ty ps => ("event.type", .str ty) :: ps.map fun kv => ("event." ++ kv.1, kv.2)
+  | _ => []
+
+/-- `context["event"] = event` (replaces the previous event object) plus `last_user_message` / `last_bot_message` -/
+def Ctx.withEvent (σ : Ctx) (ev : Event) : Ctx :=
+  let σ := match ev with
+    | .other "UserMessage" ps => σ.set "last_user_message" ((ps.lookup "text").getD .none)
+    | .other "StartUtteranceBotAction" ps => σ.set "last_bot_message" ((ps.lookup "script").getD .none)
+    | _ => σ
+  ev.props ++ σ.filter fun kv => !kv.1.startsWith "event."
 
 structure FlowCfg where
   id : String
@@ -220,7 +285,11 @@ structure FlowCfg where
   isExtension : Bool := false
   isInterruptible : Bool := true
   allowMultiple : Bool := false
-  deriving Repr, Inhabited
+  /-- priority in hundredths (1.0 = 100) -/
+  prio : Nat := 100
+  /-- extra `trigger_event_types` -/
+  triggers : List String := []
+  deriving Repr, Inhabited, DecidableEq
 
 inductive Status where
   | active | interrupted | aborted | completed
@@ -234,7 +303,7 @@ structure FS where
   interruptedBy : Option Nat := Option.none
   deriving Repr, Inhabited, DecidableEq
 
-/-- priorities in hundredths: flow priority 1.0 = 100, with the 0.9 modifier = 90 -/
+/-- recorded priorities in ten-thousandths: flow priority (hundredths) × modifier (100 or 90) -/
 structure NextStep where
   elem : Elem
   uid : Nat
@@ -261,15 +330,15 @@ def Cfgs.find (cfgs : Cfgs) (id : String) : Option FlowCfg := List.find? (fun c 
 def pyIndex (l : List Elem) (i : Int) : Option Elem :=
   if i < 0 then (if -i ≤ l.length then l[(l.length - (-i).toNat)]? else Option.none) else l[i.toNat]?
 
-/-- `_record_next_step` (flow priority fixed at 1.0). Heads of the flows it is called on are valid
+/-- `_record_next_step`. Heads of the flows it is called on are valid
     element indices; an out-of-range head leaves the state unchanged here. -/
 def recordNextStep (ns : State) (fs : FS) (cfg : FlowCfg) (modNine : Bool) : State :=
   let free := match ns.next with
     | Option.none => true
-    | some n => n.prio < 100
+    | some n => n.prio < cfg.prio * 100
   match pyIndex cfg.elems fs.head with
   | some el =>
-    if free && isActionable el then { ns with next := some { elem := el, uid := fs.uid, prio := if modNine then 90 else 100 } } else ns
+    if free && isActionable el then { ns with next := some { elem := el, uid := fs.uid, prio := cfg.prio * (if modNine then 90 else 100) } } else ns
   | Option.none => ns
 
 def SLIDE_FUEL : Nat := 5000
@@ -306,6 +375,26 @@ def slideWithSubflows (repaired : Bool) : Nat → Cfgs → State → FS → Exce
                 -- repaired: a subflow that is itself waiting for a nested subflow decides nothing yet
                 if repaired && sub.status != .active then .ok (ns, fs)
                 else .ok (recordNextStep ns sub scfg false, fs)
+        | some (.flowE e) =>
+          -- `subflow_id = eval_expression(subflow_id, context)`; ids with parameters are not modelled
+          match eval ns.ctx e with
+          | some (.str name) =>
+            let sub : FS := { uid := ns.ctr, flowId := name, head := 0 }
+            let ns := { ns with ctr := ns.ctr + 1 }
+            let fs := { fs with head := fs.head + 1 }
+            match slideWithSubflows repaired f cfgs ns sub with
+            | .error e => .error e
+            | .ok (ns, sub) =>
+              if sub.head < 0 then slideWithSubflows repaired f cfgs ns fs
+              else
+                let fs := { fs with status := .interrupted, interruptedBy := some sub.uid }
+                let ns := { ns with flows := ns.flows ++ [sub] }
+                match cfgs.find sub.flowId with
+                | Option.none => .error .key
+                | some scfg =>
+                  if repaired && sub.status != .active then .ok (ns, fs)
+                  else .ok (recordNextStep ns sub scfg false, fs)
+          | _ => .error .expr
         | _ => .ok (recordNextStep ns fs cfg false, fs)
 
 def SUB_FUEL : Nat := 64
@@ -320,7 +409,7 @@ def advanceOne (repaired : Bool) (cfgs : Cfgs) (ev : Event) (ns : State) (ext : 
     else match pyIndex cfg.elems fs.head with
       | Option.none => .error .index
       | some headEl =>
-        if !ev.triggers then
+        if !ev.triggers cfg.triggers then
           let ns := { ns with flows := ns.flows ++ [fs] }
           .ok (recordNextStep ns fs cfg true, ext)
         else if isMatch headEl ev && fs.head + 1 != 0 then   -- `if matching_head:` (0 is falsy)
@@ -450,7 +539,7 @@ def computeNextState (repaired : Bool) (cfgs : Cfgs) (st : State) (ev : Event) :
   | .startAction => .ok st
   | .contextUpdate d => .ok { st with ctx := st.ctx.update d, upd := [], next := Option.none }
   | _ =>
-    let ns : State := { ctx := st.ctx, flows := [], next := Option.none, upd := [], ctr := st.ctr }
+    let ns : State := { ctx := st.ctx.withEvent ev, flows := [], next := Option.none, upd := [], ctr := st.ctr }
     match advanceAll repaired cfgs ev st.flows ns false with
     | .error e => .error e
     | .ok (ns, ext) =>
@@ -471,7 +560,7 @@ def cutAtLastUtterance : List Event → Option (List Event)
     -- end = len-1; while end > 0 and h[end].type != U: end -= 1; assert h[end].type == U; h[0:end]
     let rec go (l : List Event) (endIdx : Nat) : Option (List Event) :=
       match l[endIdx]? with
-      | some (.other "UtteranceUserActionFinished") => some (l.take endIdx)
+      | some (.other "UtteranceUserActionFinished" _) => some (l.take endIdx)
       | _ => match endIdx with
         | 0 => Option.none
         | n + 1 => go l n
@@ -515,11 +604,11 @@ def decisionsOf (st : State) : List Decision :=
    | some n => (match stepToEvent n.elem with | some d => [d] | Option.none => [])
    | Option.none => [])
 
-def computeNextSteps (repaired : Bool) (cfgs : Cfgs) (history : List Event) : StepsRes :=
+def computeNextSteps (repaired : Bool) (cfgs : Cfgs) (history : List Event) (config : Ctx := []) : StepsRes :=
   match applyHide history [] with
   | Option.none => .otherErr "hide_prev_turn"
   | some actual =>
-    match replay repaired cfgs actual {} with
+    match replay repaired cfgs actual { ctx := config } with
     | .error .expr => .exprErr
     | .error .oof => .oof
     | .error .key => .otherErr "KeyError"
